@@ -26,20 +26,20 @@ VARIABLES tid, l,
           nstim,        \* attempt -> [close |-> n, fail |-> n]   stimuli that may produce a disconnected
           bad, badAt,
           conf, confAt,
-          sg, sstk, swords, sact, snstim, sviol      \* the design spec's variables
+          sg, sstk, swords, sact, snstim, sviol, svwhen      \* the design spec's variables
 
 Pr == INSTANCE LifecycleProps
 \* which as-is behaviours the tree under test has (structural ones are measured by the harness on a
 \* reference run, see harness/props/C02.py detect_defects); the same for every trace of a batch
 BatchDefects == {Traces[1].defects[i] : i \in DOMAIN Traces[1].defects}
-D == INSTANCE Lifecycle WITH Defects <- BatchDefects, g <- sg, stk <- sstk, words <- swords, act <- sact, nstim <- snstim, viol <- sviol
+D == INSTANCE Lifecycle WITH Defects <- BatchDefects, g <- sg, stk <- sstk, words <- swords, act <- sact, nstim <- snstim, viol <- sviol, vwhen <- svwhen
 
 T  == Traces[tid]
 Ev == T.ev[l]
 Atts == 0..NAtt
 
 mvars == <<words, act, nstim, bad, badAt>>
-svars == <<sg, sstk, swords, sact, snstim, sviol>>
+svars == <<sg, sstk, swords, sact, snstim, sviol, svwhen>>
 
 Init == /\ TLCSet(42, JsonDeserialize(IOEnv.TRACE_FILE))
         /\ tid \in 1..Len(Traces)
